@@ -147,6 +147,14 @@ def run_case(ctx, case):
     mr, md = {}, {}
     reassign = False
     for k, (ks, val, form) in enumerate(steps):
+        if k % 4 == 3:
+            # a typo in a sweep: an assignment to an unknown label must not disturb anything derived for the declared types
+            for obj, name in ((rho, 'density'), (dia, 'diameter')):
+                ctx.hook('%s.refused_assignment' % name)
+                try:
+                    obj['no_such_type_%d' % k] = val        # may or may not be refused; either way the declared types must stay consistent
+                except (ValueError, KeyError):
+                    pass
         keys = [types[i] for i in ks]
         key = keys[0] if form == 'single' else (tuple(keys) if form == 'tuple' else list(keys))
         where = 'step %d: [%r]=%r' % (k, key, val)
